@@ -24,6 +24,8 @@ FIRST = 34
 
 def weak_off(t):
     """Offset inside a list node for a weak-load atom (possibly wrapped in cat/byte)."""
+    if t[0] == 'byte' and len(t) == 3 and t[2] == 0 and t[1][0] == 'sym':
+        t = t[1]          # the low byte of a one-byte load
     if t[0] == 'sym':
         m = WEAK.match(str(t[1]))
         if m:
@@ -92,6 +94,8 @@ def decide(rep, prog):
     prec = fs.prec
     noff = {f[0]: f[1] for f in prec.fields}
     node_from_frame = {}       # node offset -> frame offset
+    # (first: it also tells which locals are the search loop's match accumulators, used by the "dropped" rule below)
+    dedupe_key_check(rep, stats['topo.rest']['loops'], noff, 'R07.b', fnf)
     # ---------------- observer (parseProbe)
     linked = dropped = notforus = 0
     for st, ret in res['topo.rest']:
@@ -149,7 +153,7 @@ def decide(rep, prog):
             dropped += 1
             # a Probe/Train addressed to this station that is NOT recorded needs a reason the property allows: an allocation
             # failed, an equal observation is already recorded, or the list is at its cap - not some other test on the frame
-            dup = any(weak_off(a) is not None or weak_off(b) is not None for a, b in st.eq.items())
+            dup = any(weak_off(a) is not None or weak_off(b) is not None for a, b in st.eq.items()) or accumulated_match(st)
             capped = st.dom(SEEN_COUNT).lo >= 300
             rep.check(failed or dup or capped, 'R07.a', 'observer|dropped', 'a Probe/Train whose real destination is the own address is dropped without being recorded, and not because '
                       'of an allocation failure, an equal recorded observation or a full list (count %s): some other condition on the frame decides' % st.dom(SEEN_COUNT),
@@ -161,7 +165,6 @@ def decide(rep, prog):
         rep.fail('R07.a', 'observer|never-links', 'no path links an observation', function='parseProbe', file=fnf)
     rep.ok('R07.a', n=1)
     # de-duplication key from the dedupe loop's breaking iteration
-    dedupe_key_check(rep, stats['topo.rest']['loops'], noff, 'R07.b', fnf)
 
     # ---------------- reporter (parseQuery)
     ql = sorted(stats['topo.query']['loops'])      # every loop of the Query cell; the report loop is recognised by what it writes
@@ -418,16 +421,46 @@ def cursor_null_at_exit(st, loops, report_loops):
     return False
 
 
+ACCUMULATORS = set()      # (loop id, local) whose change in an iteration goes with a recognised key match
+
+
+def accumulated_match(st):
+    """Does the path know that the search loop's accumulator left its initial value 0 (a match was counted / flagged)?"""
+    for l, oid in ACCUMULATORS:
+        for name, v in st.tags.get('lw:' + l, ()):
+            if name == oid and not st.dom(v).contains(0):
+                return True
+    return False
+
+
 def dedupe_key_check(rep, loops, noff, rule, fnf):
     """An observation may be discarded as a duplicate only when an existing entry has the same Ethernet source AND the
     same real source: the (frame byte, node offset) pairs known equal when the search loop is left early."""
     # the search loop is recognised by what it does (leaves early knowing frame bytes equal to bytes of an existing node),
     # not by where it lives or how it leaves: in parseProbe or a helper, by `break` or by `return`
     keyset = None
+    ACCUMULATORS.clear()
     for l in loops:
+        start = loops[l].get('iter_start')
         for kind, trace, st in (loops[l]['iter_states'] or []):
+            changed = []
             if kind not in ('break', 'return'):
-                continue
+                # a scan without early exit: an iteration that changes an accumulator local (sets a flag, counts a match)
+                if start is None:
+                    continue
+                for oid, ob in start.objs.items():
+                    if not oid.startswith('L:'):
+                        continue
+                    ob2 = st.objs.get(oid)
+                    for key, (w, t) in ob.cells.items():
+                        c2 = ob2.cells.get(key) if ob2 is not None else None
+                        if c2 is None or key[0] or start.canon(t)[0] in ('ptr', 'pset', 'fn'):
+                            continue
+                        ta, tb = st.canon(t), st.canon(c2[1])
+                        if ta != tb and not st.same(ta, tb) and ('iter:' + l) not in repr(ta):
+                            changed.append(oid)
+                if not changed:
+                    continue
             pairs = set()
             for t, r in st.eq.items():
                 for a, b in ((t, r), (r, t)):
@@ -438,6 +471,8 @@ def dedupe_key_check(rep, loops, noff, rule, fnf):
             if not pairs:
                 continue          # some other loop left early
             keyset = pairs if keyset is None else (keyset | pairs)
+            for oid in changed:
+                ACCUMULATORS.add((l, oid))
     want = set((6 + i, noff['sourceAddr'] + i) for i in range(6)) | set((24 + i, noff['realSourceAddr'] + i) for i in range(6))
     if keyset is None:
         rep.fail(rule, 'dedupe|no-early-exit', 'the observation list is not searched for an existing entry before linking', function='parseProbe', file=fnf)
